@@ -9,17 +9,21 @@ Local Open Scope Z_scope.
 Definition hsla_fmt (c : color) : bool := match c with CHsla x => h_format x | _ => false end.
 
 (* lighten / darken / saturate / desaturate / grayscale (global forms: hsla_format = false) *)
+(* fix e0d618c: the new lightness is clamped with `.max(0.).min(1.)` *)
+Definition clamp01 (x : f64) : f64 := fmin (fmax x f_zero) f_one.
 Definition lighten (c : color) (amt : f64) : color :=
-  let h := to_hsla c in CHsla (hsla_new (h_hue h) (h_sat h) (fadd (h_lum h) amt) (h_alpha h) false).
+  let h := to_hsla c in CHsla (hsla_new (h_hue h) (h_sat h) (clamp01 (fadd (h_lum h) amt)) (h_alpha h) false).
 Definition darken (c : color) (amt : f64) : color :=
-  let h := to_hsla c in CHsla (hsla_new (h_hue h) (h_sat h) (fsub (h_lum h) amt) (h_alpha h) false).
+  let h := to_hsla c in CHsla (hsla_new (h_hue h) (h_sat h) (clamp01 (fsub (h_lum h) amt)) (h_alpha h) false).
 Definition saturate (c : color) (amt : f64) : color :=
   let h := to_hsla c in
   CHsla (hsla_new (h_hue h) (fclamp (fadd (h_sat h) amt) f_zero f_one) (h_lum h) (h_alpha h) false).
 Definition desaturate (c : color) (amt : f64) : color :=
   let h := to_hsla c in CHsla (hsla_new (h_hue h) (fsub (h_sat h) amt) (h_lum h) (h_alpha h) false).
+(* fix 4bdb874: the hsla_format flag is kept for colours that are not rgb *)
 Definition grayscale (c : color) : color :=
-  let h := to_hsla c in CHsla (hsla_new (h_hue h) f_zero (h_lum h) (h_alpha h) false).
+  let h := to_hsla c in
+  CHsla (hsla_new (h_hue h) f_zero (h_lum h) (h_alpha h) (match c with CRgba _ => false | _ => true end)).
 
 (* Color::set_alpha: clamp, then the representation's own clamp *)
 Definition get_alpha (c : color) : f64 :=
